@@ -16,6 +16,14 @@ ENGINES.append(
      "all boolean masks / NaN placements, option products) run against the "
      "real code with a reference oracle per case"})
 
+ENGINES.append(
+    {"name": "E2-faults", "path": "vf/faults.py",
+     "serves_properties": ["C10"],
+     "kind_free_text": "fault-point enumerator: seams (h5py group/dataset/"
+     "attribute writes, h5o.copy, File.close, Path.rename/unlink) are "
+     "monkeypatched in a forked child; a counting run numbers the crossings; "
+     "every crossing is turned into EIO and into a process kill"})
+
 NOTES = ("All checks run /repo's working tree directly (editable install; "
          "compiled extensions are rebuilt from their generated .c when that "
          "changes; Cython is not available so .pyx edits cannot be compiled). "
@@ -157,5 +165,25 @@ CHECKS = {
                 "min()/max()/mean() of the feature object equal numpy "
                 "nanmin/nanmax/nanmean of its data.",
         "note": "mean compared to 1e-9 relative; N <= 6",
+    },
+    "C10": {
+        "engine": "E2-faults",
+        "level": "fault_enumeration",
+        "technique": "exhaustive fault-point enumeration (I/O error and "
+                     "process kill at every seam crossing) of the real CLI "
+                     "task functions in forked children",
+        "text": "For compress, repack, condense, join, split and tdms2rtdc "
+                "on generated inputs (1 variant quick / 3 thorough), every "
+                "one of the K (200-750) crossings of an HDF5 write, group/"
+                "attribute creation, object copy, file close, rename or "
+                "unlink is (a) made to raise EIO and (b) preceded by "
+                "os._exit; thorough adds a second error 1-3 crossings later "
+                "and a pre-existing complete output file. After each run: "
+                "inputs byte-identical, each requested output absent or "
+                "loadable and equal to the fault-free result, everything "
+                "else only under *.rtdc~.",
+        "note": "process death is modelled by os._exit immediately before "
+                "the operation (not power loss); command logs compared by "
+                "name; seams installed by monkeypatching in the child",
     },
 }
